@@ -401,3 +401,80 @@ Inductive reachable : pbuilder -> Prop :=
 
 Lemma reachable_Inv s : reachable s -> Inv s.
 Proof. induction 1; [apply Inv_fresh|apply Inv_add_string; assumption|apply Inv_reset; assumption]. Qed.
+
+(** ** the sorted list writePostings emits is the same, element for element *)
+From Coq Require Import Permutation Sorting.Sorted.
+
+Definition kle (a b : N * list N) : Prop := (fst a <= fst b)%N.
+
+Lemma ins_ng_perm x l : Permutation (ins_ng x l) (x :: l).
+Proof.
+  induction l as [|y l IH]; simpl; [apply Permutation_refl|].
+  destruct (fst x <? fst y)%N; [apply Permutation_refl|].
+  eapply perm_trans; [apply perm_skip, IH|apply perm_swap].
+Qed.
+Lemma sort_ng_perm l : Permutation (sort_ng l) l.
+Proof.
+  induction l as [|x l IH]; simpl; [apply perm_nil|].
+  eapply perm_trans; [apply ins_ng_perm|apply perm_skip, IH].
+Qed.
+
+Lemma ins_ng_sorted x l : StronglySorted kle l -> StronglySorted kle (ins_ng x l).
+Proof.
+  induction 1 as [|y l Hs IH Hall]; simpl; [repeat constructor|].
+  destruct (fst x <? fst y)%N eqn:E.
+  - apply N.ltb_lt in E. constructor; [constructor; assumption|].
+    constructor; [unfold kle; lia|]. eapply Forall_impl; [|exact Hall]. unfold kle. intros a Ha. lia.
+  - apply N.ltb_ge in E. constructor; [exact IH|].
+    eapply Permutation_Forall; [apply Permutation_sym, ins_ng_perm|].
+    constructor; [exact E|exact Hall].
+Qed.
+Lemma sort_ng_sorted l : StronglySorted kle (sort_ng l).
+Proof. induction l as [|x l IH]; simpl; [constructor|apply ins_ng_sorted, IH]. Qed.
+
+Lemma sorted_unique (l1 : list (N * list N)) : forall l2,
+  StronglySorted kle l1 -> StronglySorted kle l2 ->
+  NoDup (map fst l1) -> NoDup (map fst l2) -> (forall z, In z l1 <-> In z l2) -> l1 = l2.
+Proof.
+  induction l1 as [|x l1 IH]; intros [|y l2] S1 S2 N1 N2 Heq.
+  - reflexivity.
+  - exfalso. apply (proj2 (Heq y)). left. reflexivity.
+  - exfalso. apply (proj1 (Heq x)). left. reflexivity.
+  - apply StronglySorted_inv in S1. destruct S1 as [S1 A1].
+    apply StronglySorted_inv in S2. destruct S2 as [S2 A2].
+    simpl in N1, N2. apply NoDup_cons_iff in N1. destruct N1 as [Nx N1].
+    apply NoDup_cons_iff in N2. destruct N2 as [Ny N2].
+    rewrite Forall_forall in A1, A2.
+    assert (x = y) as ->.
+    { assert (In x (y :: l2)) as Hx by (apply Heq; left; reflexivity).
+      assert (In y (x :: l1)) as Hy by (apply Heq; left; reflexivity).
+      destruct Hx as [Hx|Hx]; [auto|]. destruct Hy as [Hy|Hy]; [auto|].
+      pose proof (A2 _ Hx) as L1. pose proof (A1 _ Hy) as L2. unfold kle in L1, L2.
+      assert (fst x = fst y) as E by lia. exfalso. apply Ny. rewrite <- E. apply in_map. exact Hx. }
+    f_equal. apply IH; try assumption.
+    intros z. split; intros Hz.
+    + assert (In z (y :: l2)) as H by (apply Heq; right; exact Hz).
+      destruct H as [->|H]; [|exact H]. exfalso. apply Nx. apply in_map. exact Hz.
+    + assert (In z (y :: l1)) as H by (apply Heq; right; exact Hz).
+      destruct H as [->|H]; [|exact H]. exfalso. apply Ny. apply in_map. exact Hz.
+Qed.
+
+Lemma sort_ng_unique l1 l2 :
+  NoDup (map fst l1) -> NoDup (map fst l2) -> (forall z, In z l1 <-> In z l2) -> sort_ng l1 = sort_ng l2.
+Proof.
+  intros N1 N2 Heq. apply sorted_unique; try apply sort_ng_sorted.
+  - eapply Permutation_NoDup; [|exact N1]. apply Permutation_map, Permutation_sym, sort_ng_perm.
+  - eapply Permutation_NoDup; [|exact N2]. apply Permutation_map, Permutation_sym, sort_ng_perm.
+  - intros z. split; intros Hz.
+    + eapply Permutation_in; [apply Permutation_sym, sort_ng_perm|]. apply Heq. eapply Permutation_in; [apply sort_ng_perm|exact Hz].
+    + eapply Permutation_in; [apply Permutation_sym, sort_ng_perm|]. apply Heq. eapply Permutation_in; [apply sort_ng_perm|exact Hz].
+Qed.
+
+Theorem reuse_writes_identical st docs :
+  Inv st ->
+  sort_ng (written (add_strings (reset_pb st) docs)) = sort_ng (written (add_strings fresh_pb docs)) /\
+  pb_scalars (add_strings (reset_pb st) docs) = pb_scalars (add_strings fresh_pb docs).
+Proof.
+  intros H. destruct (reuse_writes_same st docs H) as (Heq & N1 & N2 & Hs).
+  split; [apply sort_ng_unique; assumption|exact Hs].
+Qed.
